@@ -15,11 +15,11 @@ func init() {
 		DesignRef: "DESIGN.md §5 C18",
 		Level: "Decides that the block index reader and the head index reader keep exactly the series whose stable label hash modulo the shard count equals the shard index, that the head's per-series shard hash is StableHash of the label set the series was created with (written once, in newMemSeries), that neither path uses the process-local Labels.Hash, " +
 			"and that StableHash in the loaded build variant consumes every decoded label (name, separator, value, separator) on both its buffered and its streaming path.",
-		Note:     "Trusted: go/packages, go/types, go/cfg; rule tables in checker/c18.go; thorough tier repeats the hash rules under -tags slicelabels and dedupelabels.",
-		Covers:   "index.Reader.ShardedPostings, headIndexReader.ShardedPostings, Head.getOrCreateWithOptionalID → newMemSeries(shardHash), memSeries.shardHash writers, labels.StableHash (variant in the build).",
-		NotCover: "equality of the hash values across variants and versions (value-level), the postings the shards are computed from.",
-		Run:      runC18,
-		Tags:     []string{"slicelabels", "dedupelabels"},
+		Note:           "Trusted: go/packages, go/types, go/cfg; rule tables in checker/c18.go; thorough tier repeats the hash rules under -tags slicelabels and dedupelabels.",
+		Covers:         "index.Reader.ShardedPostings, headIndexReader.ShardedPostings, Head.getOrCreateWithOptionalID → newMemSeries(shardHash), memSeries.shardHash writers, labels.StableHash (variant in the build).",
+		NotCover:       "equality of the hash values across variants and versions (value-level), the postings the shards are computed from.",
+		Run:            runC18,
+		Tags:           []string{"slicelabels", "dedupelabels"},
 		MinObligations: 10,
 	})
 }
@@ -107,7 +107,10 @@ func runC18(c *eng.Ctx) {
 		f.GivenBranch("h != nil", true).NoPath("R3", takeover, eng.Node("b = append(b, …)", func(g *eng.Graph, n ast.Node) bool {
 			return strings.HasPrefix(nodeText(n), "b = append(b, ")
 		}))
-		f.PassesBetween("R3", takeover, eng.Node("h.Write(b)", func(g *eng.Graph, n ast.Node) bool { c, ok := n.(*ast.CallExpr); return ok && nodeText(c) == "h.Write(b)" }), useOf("v.Name"))
+		f.PassesBetween("R3", takeover, eng.Node("h.Write(b)", func(g *eng.Graph, n ast.Node) bool {
+			c, ok := n.(*ast.CallExpr)
+			return ok && nodeText(c) == "h.Write(b)"
+		}), useOf("v.Name"))
 	case "slicelabels":
 		f.AstEvery("R3", "streaming loop after the buffer overflowed", func(n ast.Node) bool {
 			rs, ok := n.(*ast.RangeStmt)
